@@ -1,4 +1,6 @@
 import LinOp.C02.Proofs4
+import LinOp.C02.ProofsBatch3
+import LinOp.C02.ProofsBlock
 import LinOp.Generated.C02Table
 /-!
 C02 — composition and structure-preserving rewrites never change the matrix.  Property theorems only.
@@ -136,6 +138,125 @@ theorem resultClass_irrelevant (E E' : Env α) (hS : SqrtLaw E.S) (hS' : SqrtLaw
     (p : Prog α) (r r' : Op α) (h : Impl.eval E p = .ok r) (h' : Impl.eval E' p = .ok r')
     (i j : Nat) (hi : i < p.rows) (hj : j < p.cols) : r.denote i j = r'.denote i j := by
   rw [(eval_refines E hS hroot p r h).2.2 i j hi hj, (eval_refines E' hS' hroot' p r' h').2.2 i j hi hj]
+
+
+/-! ### batched layer (LinOp/C02/Batch.lean): batch shapes, broadcasting, batch rewrites — all batch shapes, all nesting depths -/
+section batched
+open BOp
+
+/-- **Every batch rewrite denotes the torch rewrite of the dense value** (`expand` / `_expand_batch`, `permute`, `unsqueeze`,
+`sum(dim)`, `prod(dim)` over a batch dimension): for an operator `o` whose tensors all have batch shape `S` (what the
+constructors establish; the constant of a ConstantMul may be 0-d) and every valid batch index `idx` of the rewritten shape,
+the rewritten operator's matrix at `idx` is what torch computes from the dense batched value of `o` — whichever per-class
+override did the work (tensor.expand / .permute / .unsqueeze / .sum / .prod on the class's own tensor, recursion through
+Triangular / Root / Sum / Matmul, ConstantMul expanding its constant first, Identity → ConstantDiag of the count for `sum`). -/
+theorem batchRewrite_value (ρ : Rewrite) (S : Shape) (o r : BOp α) (hu : o.uniform S = true) (hok : ρ.okFor o = true)
+    (h : ρ.apply o = .ok r) (idx : BIdx) (hidx : inRange (ρ.shape S) idx = true) (i j : Nat) :
+    r.denote idx i j = ρ.spec S o.denote idx i j := rewrite_value_aux ρ S o r hu hok h idx hidx i j
+
+/-- **…and has the torch batch shape**: every tensor of the result has batch shape `ρ.shape S` (so rewrites compose), the
+matrix shape is unchanged. -/
+theorem batchRewrite_shape (ρ : Rewrite) (S : Shape) (o r : BOp α) (hu : o.uniform S = true) (hok : ρ.okFor o = true)
+    (h : ρ.apply o = .ok r) : r.uniform (ρ.shape S) = true ∧ r.bshape = ρ.shape S :=
+  ⟨rewrite_uniform_aux ρ S o r hu hok h, bshape_of_uniform _ r (rewrite_uniform_aux ρ S o r hu hok h)⟩
+
+/-- `_expand_batch(S')` spelled out: the expanded operator at `idx` is the old one at the broadcast index. -/
+theorem expandBatch_value (S' S : Shape) (o : BOp α) (hu : o.uniform S = true) (idx : BIdx) (hidx : inRange S' idx = true)
+    (i j : Nat) : (expandBatch S' o).denote idx i j = o.denote (bcast S idx) i j := expand_value S' S idx hidx o hu i j
+
+/-- `_permute_batch(dims)` of a tree without a ZeroLinearOperator: `out[idx] = in[old]` with `old[dims[k]] = idx[k]`. -/
+theorem permuteBatch_value (dims : List Nat) (S : Shape) (o : BOp α) (hu : o.uniform S = true) (hz : o.hasZero = false)
+    (idx : BIdx) (hidx : inRange (permShape dims S) idx = true) (i j : Nat) :
+    (permuteBatch dims o).denote idx i j = o.denote (permIdx dims idx) i j := by
+  rw [permuteBatch_eq_reindex dims o hz]
+  exact reindex_value _ _ S idx (bcast_id _ idx hidx) o hu i j
+
+/-- **ZeroLinearOperator inherits the generic `_permute_batch`, which rebuilds it from its unpermuted sizes** (open finding):
+the value is still zero but the batch shape is not the permuted one. -/
+theorem zero_permute_shape_counterexample :
+    (permuteBatch [1, 0] (BOp.zero [2, 3] 2 2 : BOp Int)).bshape ≠ permShape [1, 0] [2, 3] := by decide
+
+/-- **`a @ b` with operands of different batch shapes** (`MatmulLinearOperator.__init__` expands both factors to the broadcast
+shape `S`): the product at every batch index of `S` multiplies the operands read at their broadcast indices (torch
+broadcasting of `@`), the result is batch-uniform — so every later batch rewrite of the lazy product is covered by
+`batchRewrite_value`. -/
+theorem matmul_broadcast_value (a b r : BOp α) (sa sb : Shape) (ha : a.uniform sa = true) (hb : b.uniform sb = true)
+    (h : mkMatmul a b = .ok r) :
+    ∃ S, bshapes sa sb = some S ∧ r.bshape = S ∧ r.uniform S = true ∧ r.rows = a.rows ∧ r.cols = b.cols ∧
+      ∀ idx, inRange S idx = true → ∀ i j,
+        r.denote idx i j = sumN a.cols fun k => a.denote (bcast sa idx) i k * b.denote (bcast sb idx) k j :=
+  mkMatmul_value a b r sa sb ha hb h
+
+/-- **`a + b` through `SumLinearOperator(a, b)` with operands of different batch shapes** (the `_expand_batch` wrappers of the
+constructor): the sum at every batch index of the broadcast shape adds the operands read at their broadcast indices. -/
+theorem add_broadcast_value (a b r : BOp α) (sa sb : Shape) (ha : a.uniform sa = true) (hb : b.uniform sb = true)
+    (h : mkSum2 a b = .ok r) :
+    ∃ S, bshapes sa sb = some S ∧ r.bshape = S ∧ r.uniform S = true ∧ r.rows = a.rows ∧ r.cols = a.cols ∧
+      ∀ idx, inRange S idx = true → ∀ i j,
+        r.denote idx i j = a.denote (bcast sa idx) i j + b.denote (bcast sb idx) i j := by
+  obtain ⟨S, h1, h2, h3, h4, h5, h6⟩ := mkSum2_value a b r sa sb ha hb h
+  exact ⟨S, h1, h2, h3, h4, h5, fun idx hidx i j => by rw [h6 idx hidx i j]; ring⟩
+
+/-- **`op * c` for a batch of constants** (`c` of batch shape `cbs`, e.g. a `(b,1,1)` tensor after the front-end's `view`, or a
+0-d constant): Diag / ConstantDiag / Identity rescale their diagonal with torch broadcasting, Triangular and Sum recurse, Zero
+stays Zero, everything else is wrapped in a ConstantMulLinearOperator that keeps the constant's own batch shape — at every
+batch index the matrix is scaled by the constant read at its broadcast index. -/
+theorem mulConstBatch_value (cbs : Shape) (c : BIdx → α) (S : Shape) (o r : BOp α) (hu : o.uniform S = true)
+    (h : mulConstB cbs c o = some r) (idx : BIdx) (hidx : inRange S idx = true) (i j : Nat) :
+    r.denote idx i j = o.denote idx i j * c (bcast cbs idx) := mulConstB_value cbs c S o r hu h idx hidx i j
+
+/-- the front-end tests of `LinearOperator.mul`: a `(b,1,1)` tensor against an operator of batch shape `(b,)` is a batch of
+constants, a one-element tensor is a 0-d constant, an `(n,n)` tensor is a matrix. -/
+theorem mulKind_examples :
+    mulKind [2] [2, 1, 1] = .constantBatch ∧ mulKind [2, 3] [3, 1, 1] = .constantBatch ∧ mulKind [2] [1, 1, 1] = .constant0d ∧
+    mulKind [2] [3, 1, 1] = .matrix ∧ mulKind [2] [3, 3] = .matrix ∧ mulKind [] [] = .constant0d := by decide
+
+/-- hypotheses of the batched theorems are satisfiable on a non-trivial instance: Matmul of a (3,2)-batched Dense and a
+(2,)-batched Diag, then `unsqueeze(1)`. -/
+example : ∃ r : BOp Int, mkMatmul (.dense [3, 2] 2 2 fun idx i j => ((idx.sum + i + j : Nat) : Int))
+      (.diag [2] 2 fun idx i => ((idx.sum + i : Nat) : Int)) = .ok r ∧
+    r.uniform [3, 2] = true ∧ (unsqueezeBatch 1 r).tree = "Matmul(Dense[3,1,2],Diag[3,1,2])" :=
+  ⟨.matmul (.dense [3, 2] 2 2 fun idx i j => ((idx.sum + i + j : Nat) : Int))
+      (expandBatch [3, 2] (.diag [2] 2 fun idx i => ((idx.sum + i : Nat) : Int))), by rfl, by decide, by decide⟩
+end batched
+
+/-! ### cat / cat_rows / add_low_rank (LinOp/C02/Block.lean) -/
+
+/-- **`cat([a, b], dim)` over a matrix dimension denotes the stacked matrix** and has the stacked shape. -/
+theorem cat_value (rowwise : Bool) (cls : Nat) (a b r : Op α) (h : catOp rowwise cls a b = .ok r) :
+    (r.rows = if rowwise then a.rows + b.rows else a.rows) ∧ (r.cols = if rowwise then a.cols else a.cols + b.cols) ∧
+    ∀ i j, r.denote i j = if rowwise then vcat a.rows a.denote b.denote i j else hcat a.cols a.denote b.denote i j :=
+  catOp_refines rowwise cls a b r h
+
+/-- **`A.cat_rows(B, D)` denotes the block matrix `[[A, Bᵀ], [B, D]]`** (for a square `A` of any class). -/
+theorem catRows_value (cls : Nat) (a r : Op α) (o : Nat) (B D : NMat α) (h : catRowsOp cls a o B D = .ok r)
+    (hsq : a.rows = a.cols) :
+    r.rows = a.rows + o ∧ r.cols = a.cols + o ∧ ∀ i j, r.denote i j =
+      if i < a.rows then (if j < a.cols then a.denote i j else B (j - a.cols) i)
+      else (if j < a.cols then B (i - a.rows) j else D (i - a.rows) (j - a.cols)) :=
+  catRowsOp_refines cls a r o B D h hsq
+
+/-- **`A.add_low_rank(B)` denotes `A + B Bᵀ`** whichever branch is taken (re-dispatched `self + Dense(B Bᵀ)`, or the
+Sum-family branch that returns a DenseLinearOperator). -/
+theorem addLowRank_value (a r : Op α) (k : Nat) (B : NMat α) (h : addLowRank a k B = .ok r) (i j : Nat)
+    (hi : i < a.rows) : r.denote i j = a.denote i j + sumN k fun l => B i l * B j l := addLowRank_refines a r k B h i j hi
+
+open Matrix in
+/-- **The Schur-complement identity the root transplant of `cat_rows` relies on**: with `E Eᵀ = A` (cached root), `E Rᵀ = 1`
+(the inverse root the code multiplies with; it gives `R Rᵀ = A⁻¹`), `F = B R` and `G Gᵀ = D − F Fᵀ`, the new root
+`Z = [[E, 0], [F, G]]` satisfies `Z Zᵀ = [[A, Bᵀ], [B, D]]` — the cached `root_decomposition` of the result denotes the
+result.  (With the wrong sign `D + F Fᵀ` the lower-right block would be `D + 2 F Fᵀ`.) -/
+theorem catRows_root_identity {n o k q : Type} [Fintype n] [Fintype o] [Fintype k] [Fintype q] [DecidableEq n]
+    [DecidableEq o] [DecidableEq k] [DecidableEq q]
+    (A : Matrix n n α) (B : Matrix o n α) (D : Matrix o o α) (E : Matrix n k α) (R : Matrix n k α) (G : Matrix o q α)
+    (hE : E * Eᵀ = A) (hR : E * Rᵀ = 1) (hG : G * Gᵀ = D - (B * R) * (B * R)ᵀ) :
+    fromBlocks E 0 (B * R) G * (fromBlocks E 0 (B * R) G)ᵀ = fromBlocks A Bᵀ B D :=
+  catRows_root_identity_aux A B D E R G hE hR hG
+
+/-- the hypotheses of `catRows_root_identity` are satisfiable (1×1 blocks over ℤ: A = 1, B = 2, D = 5, E = R = G = 1). -/
+example : ∃ (A B D E R G : Matrix (Fin 1) (Fin 1) Int), E * E.transpose = A ∧ E * R.transpose = 1 ∧
+    G * G.transpose = D - (B * R) * (B * R).transpose :=
+  ⟨1, 2, 5, 1, 1, 1, by decide, by decide, by decide⟩
 
 /-- The model has no other failure mode than the two explicit errors: a dispatch step either returns an operator
 (with the right value, by the theorems above) or says `notSupported` / `shape`. -/
